@@ -570,8 +570,12 @@ class Printer:
             try: c, k = self.ctype(a['type']); tys.append(short(c))
             except ExtractionBreak: tys.append('?')
         cname = None
+        # `//@free name~text => cname`: a specialisation of a function template, told apart by a piece of its function type
+        # (e.g. boost::get<1>(tuple): `get~element<1UL`)
+        for key in self.free:
+            if '~' in key and key.split('~', 1)[0] == name and key.split('~', 1)[1] in r['type']['qualType']: cname = self.free[key]
         for key in (name + '(' + ','.join(tys) + ')', name):
-            if key in self.free: cname = self.free[key]; break
+            if cname is None and key in self.free: cname = self.free[key]; break
         if cname is None: cname = sanitize(name)
         d = self.tu.index.get(r.get('id'))
         al = self.args(args, ptypes)
@@ -816,6 +820,8 @@ class Printer:
                         for cc in cd.get('inner', []):
                             if cc.get('kind', '').endswith('Stmt'): return self.stmt(cc, ind)
                     return self.stmt(cd, ind)
+            if k in ('OMPBarrierDirective', 'OMPTaskwaitDirective', 'OMPTaskyieldDirective', 'OMPFlushDirective'):
+                return []          # stand-alone directive (no statement attached): dropped, recorded above
             raise ExtractionBreak('OpenMP directive without captured statement')
         if k == 'CXXTryStmt':
             raise ExtractionBreak('try/catch')
